@@ -438,3 +438,84 @@ MANIFEST_TEXT_EXTRA['C01'] = {
          'ranges: snapshot of the pinned data.rs); translator; the hand models are tied to the code by the C02 correspondence, the implementation is tied to the '
          'Standard directly by the specdec run.',
 }
+
+# ---------------------------------------------------------------------------------------------- C03
+_C03_NATIVE = (
+    "native_decide (Lean compiler + IR interpreter) for the finite table obligations of C03, each appearing as "
+    "`<theorem>._native.native_decide.ax_*` under #print axioms: the complete evaluations over all code points "
+    "big5_check_r0..r5, gb_check_r0..r9, eucKr_check_all, eucJp_check_all, shiftJis_check_all, iso_check_r0..r7 "
+    "(3 states x all code points), sb_check_r0..r3 (28 single-byte encodings x all code points), and the inverse-table "
+    "checks big5Inv_checks, gbInv_checks, eucKrInv_checks, jisInv_checks, sjisInv_checks, isoJisInv_checks (two linear "
+    "passes each; that these imply `inverse look-up = index pointer` is kernel-checked: indexPointer_eq_invLookup)"
+)
+
+PROPS_EXTRA['C03'] = {
+    'thm_modules': ['EncodingRs.Thm.C03'],
+    'harness_cfgs': ['default'],
+    'generated': [
+        'Gen.Encodings (the 40 *_INIT initialisers: names, variants, single-byte run parameters; names_ok re-checks every name against the Standard\'s names and "get an output encoding")',
+        'Gen.SingleByte (SINGLE_BYTE_DATA; sb_check_r0..r3 re-evaluate every table against the vendored index of the encoding\'s name)',
+        'Gen.TablesBig5 (BIG5_LOW_BITS, BIG5_ASTRALNESS, ...: big5_check_r0..r5)',
+        'Gen.TablesJis (JIS0208_*, IBM_*, ISO_2022_JP_HALF_WIDTH_TRAIL: eucJp_check_all, shiftJis_check_all, iso_check_r0..r7)',
+        'Gen.TablesKorean (KSX1001_*, CP949_*: eucKr_check_all)',
+        'Gen.TablesGb (GBK_*, GB2312_*, GB18030_RANGE_*: gb_check_r0..r9) and Gen.TablesMisc (GB18030_2022_OVERRIDE_*)',
+    ],
+    'correspondences': [
+        'specenc: for each of the 40 encodings, everything Encoder::encode_from_utf16 (with replacement, last = true, big destination) writes for a text of UTF-16 code units = the bytes of the EXECUTABLE transcription of the Standard (Spec.Encode.encode: lossy UTF-16 -> scalar values, get an output encoding, encoder handler, process a queue in error mode html) on every generated text; theorem spec_encode_eq_model says this executable equals the model\'s reference run',
+        'specdump: every line (code point -> bytes) of the vendored encode dumps spec/encode-dump-*.txt (tests/test_data/*_out*.txt of the pinned tree, pointer selection applied by the generator) is reproduced by Spec.Encode.encode (77 668 lines; cross-check of the transcription that involves neither the implementation nor its tables)',
+        'enc: every call of every generated streaming history (harness/src/enc.rs: raw and with replacement, UTF-8 and UTF-16 sources, chunked, capacities around the thresholds) is admissible for the model (Model.Encoder.ecall / encRepl over the families of Model/EncFam.lean with some stop budget; bytes, read, result, has_pending_state, had_unmappables)',
+        'ENCCHAR (run once when the families were written, re-runnable as `verif_harness ops ENCCHAR thorough`): Model.EncFam per-character functions = the real encoders on all 1 112 064 scalar values x 40 encodings',
+    ],
+    'rule': (
+        'specenc (harness/src/specenc.rs), per encoding (all 40): quick = every scalar value of a ~4k class set alone (U+0000..U+04FF, '
+        'every constant of the Standard\'s handlers and of the encoder bodies +-2, ~1400 characters obtained by decoding random byte strings with the same encoding, '
+        '900 random BMP + 250 random astral), all 1600 ordered pairs of a 40-character per-encoding alphabet (ASCII incl. 0x0E/0x0F/0x1B/0x5C/0x7E, NCR characters, '
+        'U+00A5, U+203E, U+2212, half-width katakana, kana, kanji, U+E5E5, U+E7C7, U+20AC, PUA, astral, Big5 last-pointer characters, decodable characters of the encoding: '
+        'every ISO-2022-JP state transition and every NCR next to an escape), 14 surrogate arrangements (lone high/low, reversed, paired, doubled) alone and framed by a character of '
+        'each ISO-2022-JP state, 2000 seeded texts of 1..9 (every 7th: 1..60) characters mixing alphabet, class set, ASCII, surrogate code units and random scalars, and the empty text; '
+        'thorough = every one of the 1 112 064 scalar values (32 per operation for stateless encoders, one per operation for ISO-2022-JP), all 14 400 pairs of a 120-character alphabet, '
+        '20 000 seeded texts. specdump: all 77 668 dump lines in both tiers. enc: 150 (thorough 2500) streaming histories per encoding as for C04. '
+        'In-process oracles on every specenc text: Encoding::encode(&str) and streaming encode_from_utf8 on the lossy UTF-8 form write the same bytes, encode() names the output encoding, '
+        'had_unmappables agrees, no panic; every dump line is reproduced by the real encoder. distinct = distinct operation lines; non-trivial = the text is not empty'
+    ),
+    'trivial_re': r'^(specenc|specdump) \S+ \. => |^enc \S+ \S+ \S+ \. ',
+    'trusted': [
+        'lean/EncodingRs/Spec/Encode.lean: the transcription of the Encoding Standard\'s encoder handlers, index-pointer rules and "process a queue" (read against the Standard as quoted in the comments of /repo/src/*.rs; no copy of the Standard on this machine). Mode `report` (a fatal run resumed after each error) is our reading of what the *_without_replacement API exposes',
+        'vendored reference data (spec/PROVENANCE.md): index big5 / euc-kr / gb18030 (GB18030-2022) / jis0208 (all 11280 pointers) / ISO-2022-JP katakana RECONSTRUCTED from tests/test_data (independent of data.rs); index gb18030 ranges, the 27 single-byte indexes and the 18-row GB18030-2022 encoder table are a SNAPSHOT of data.rs / gb18030_2022.rs of the pinned tree (a mutation of those tables is caught against the snapshot only); the name -> single-byte index association is hand-written',
+        _C03_NATIVE,
+        'hand models of the encoder bodies and of the data.rs search functions (Model/EncFam.lean, Model/DataEnc.lean; default cargo features) tied to the code by the enc / ENCCHAR / specenc runs',
+        'std String::from_utf16_lossy / char::encode_utf16 in the harness',
+    ],
+    'assumptions': [
+        'code points / bytes / code units are Nat; theorems about texts assume every element < 0x110000 (surrogate values are allowed: the handlers are total and the equalities hold for them too); utf16_source_reads holds for every list of naturals',
+        'default cargo features (the fast-legacy-encode / less-slow-* encoders are different code paths: not modelled by this property, see C17)',
+        'the theorems speak about the reference run (nothing stops a call: unlimited budget, last = true); that chunking and small buffers do not change the output is C04',
+    ],
+    'partial': [
+        'encRepl_html / encode_from_utf16_conforms / encode_from_utf8_conforms are about wrapper calls that end with InputEmpty and whose inner raw calls are not stopped (budget list []): where an OutputFull stop may happen and that stopping does not change the concatenated output is C04',
+        'UTF-8 source: utf8_source_reads is about the UTF-8 form of a scalar-value text (valid UTF-8, as &str guarantees); read8 on invalid bytes is unspecified',
+    ],
+}
+
+MANIFEST_TEXT_EXTRA['C03'] = {
+    'design_ref': 'DESIGN.md 3.3, 3.4, 3.5 and 4 C03',
+    'technique': 'Lean 4 proof (complete evaluation over all code points x states with native_decide against checked inverse index tables, symbolic proofs for the table-free encoders, induction over the text against a relational transcription of "process a queue") + differential correspondence implementation / executable Standard / model + independent encode dumps',
+    'text': (
+        'Theorem encode_conforms: for each of the 40 encodings of lib.rs and EVERY text of scalar values (induction, no length bound) the Standard\'s encoder of the output encoding exists '
+        '(get an output encoding by name; UTF-16BE/LE and replacement -> UTF-8) and the bytes and Unmappable reports of the model\'s reference run (encoder families over the tables REGENERATED '
+        'from /repo/src, run as the raw API runs them: eref_is_raw_api) are exactly a run of the Standard\'s "process a queue" (resumed after each error), and with decimal numeric character references '
+        'written for the reports exactly its run in error mode "html" (NCR code points pushed back to the queue and encoded by the handler; ISO-2022-JP: final ESC ( B, U+FFFD for U+000E/0F/1B, '
+        'escape to ASCII before an error in the JIS X 0208 state); Runs is deterministic (runs_deterministic) and computed by the executable used by the driver (spec_run_sound, spec_encode_eq_model). '
+        'Per character (estep_conforms_*): single-byte x 28 (index looked up by the encoding\'s NAME), UTF-8 and x-user-defined symbolically for every natural, Big5 (pointers < (0xA1-0x81)*157 excluded, '
+        'last pointer for U+2550/255E/2561/256A/5341/5345), EUC-KR, EUC-JP, Shift_JIS (8272..8835 excluded), GBK and gb18030 (U+E5E5 error, 0x80 for U+20AC in GBK, the 18 GB18030-2022 rows, ranges '
+        'pointer with U+E7C7 -> 7457), ISO-2022-JP for all 3 states incl. restore chains - by complete evaluation of all 1 114 112 code points against the vendored WHATWG indexes (first pointer = linear '
+        'search in the definition; the inverse table used for the evaluation is itself checked, kernel lemma indexPointer_eq_invLookup). utf16_source_reads (any unit list -> lossy scalar values), '
+        'utf8_source_reads, ncr_decimal + decimalDigits_shortest, encRepl_html (the NCR wrapper of lib.rs with its total_read / NCR_EXTRA bookkeeping writes exactly that when it ends with InputEmpty) and the end-to-end corollaries encode_from_utf16_conforms (any UTF-16 unit buffer) / encode_from_utf8_conforms, output_encoding_utf8, utf8_never_unmappable. Implementation tied to the executable Standard by ~3.5*10^5 (quick) / 1.5*10^6 operations '
+        '(thorough: every scalar x 40 encodings) per run; thorough sweep at build time: 0 disagreements.'
+    ),
+    'note': (
+        'Trusted: Lean kernel + native_decide for 37 finite table evaluations (listed by axiom name in the evidence); Spec/Encode.lean as the reading of the Standard; vendored indexes '
+        '(multi-byte: reconstructed from tests/test_data independently of data.rs; single-byte, gb18030 ranges, GB18030-2022 table: snapshot of the pinned tree); hand models + correspondence runs. '
+        'No pending theorem. Stop positions (OutputFull) are out of scope here (C04).'
+    ),
+}
